@@ -496,12 +496,34 @@ func c03Node(t *rapid.T, id string) *sbom.Node {
 	return n
 }
 
-var c03Types = []sbom.Edge_Type{sbom.Edge_contains, sbom.Edge_contains, sbom.Edge_dependsOn, sbom.Edge_dependsOn, sbom.Edge_other, sbom.Edge_devDependency, sbom.Edge_generatedFrom, sbom.Edge_variant}
+var c03Types = []sbom.Edge_Type{sbom.Edge_contains, sbom.Edge_contains, sbom.Edge_dependsOn, sbom.Edge_dependsOn, sbom.Edge_other, sbom.Edge_devDependency, sbom.Edge_generatedFrom, sbom.Edge_variant,
+	sbom.Edge_contained_by, sbom.Edge_describes, sbom.Edge_describedBy, sbom.Edge_dependencyOf}
+
+// relationship types that SPDX defines as each other's inverse
+var inverseTypes = map[sbom.Edge_Type]sbom.Edge_Type{sbom.Edge_contains: sbom.Edge_contained_by, sbom.Edge_contained_by: sbom.Edge_contains,
+	sbom.Edge_describes: sbom.Edge_describedBy, sbom.Edge_describedBy: sbom.Edge_describes, sbom.Edge_dependsOn: sbom.Edge_dependencyOf, sbom.Edge_dependencyOf: sbom.Edge_dependsOn,
+	sbom.Edge_generates: sbom.Edge_generatedFrom, sbom.Edge_generatedFrom: sbom.Edge_generates, sbom.Edge_prerequisite: sbom.Edge_prerequisiteFor, sbom.Edge_prerequisiteFor: sbom.Edge_prerequisite}
+
+// addInverseEdges adds, for some existing edge a -T-> b with an inverse type T', the edge b -T'-> a: both
+// statements are legitimate, distinct relationships and both must survive translation.
+func addInverseEdges(t *rapid.T, nl *sbom.NodeList) bool {
+	added := false
+	for _, e := range append([]*sbom.Edge{}, nl.Edges...) {
+		inv, ok := inverseTypes[e.Type]
+		if !ok || len(e.To) == 0 || rapid.IntRange(0, 2).Draw(t, "inverse") != 0 {
+			continue
+		}
+		nl.Edges = append(nl.Edges, &sbom.Edge{From: e.To[0], Type: inv, To: []string{e.From}})
+		added = true
+	}
+	return added
+}
 
 func c03Property(t *rapid.T) {
 	hx.Eval()
 	ids := rapid.SliceOfNDistinct(hx.SPDXID(), 6, 6, rapid.ID[string]).Draw(t, "idpool")
 	nl := hx.GenNodeList(t, "G", hx.GraphOpts{IDs: ids, WellFormed: true, MaxNodes: 6, MaxEdges: 8, Types: c03Types, NodeGen: c03Node})
+	hx.ClassIf(addInverseEdges(t, nl), "inverse_relationship_pair")
 	if len(nl.Nodes) > 0 && rapid.IntRange(0, 4).Draw(t, "oneRoot") > 0 {
 		nl.RootElements = []string{nl.Nodes[rapid.IntRange(0, len(nl.Nodes)-1).Draw(t, "root")].Id}
 	}
